@@ -392,8 +392,13 @@ def run(tier, args):
                 distinct.add("api:" + d)
     for key, lst in byk.items():
         chk.violation(key, lst[0][0] + (" [+%d more]" % (len(lst) - 1) if len(lst) > 1 else ""), {"cases": [l for _, l in lst[:20]]})
+    # AArch64 half of the property: database forms with operand kinds kept and ids / lanes / shifts / immediates / offsets
+    # perturbed out of range must be refused without residue (generator and driver shared with C02)
+    from vlib.props import c02
+    a64cnt = c02.judge_refusals(chk, tier, args.scale)
     chk.coverage.update({
-        "evaluations": n + api_n,
+        "a64_refusal_sweep": a64cnt,
+        "evaluations": n + api_n + a64cnt.get("a64_unencodable_cases", 0),
         "distinct_nontrivial": len(distinct),
         "rule": "one evaluation = one public API call with generated (mostly invalid) input; distinct = failing calls by (emitter, error code, generator class, operand-kind signature) plus distinct (API, outcome) pairs of the misuse scripts; all counted cases are failing calls whose state deltas were checked",
         "samples": samples[:4],
@@ -403,7 +408,7 @@ def run(tier, args):
         "jobs": len(jobs),
     })
     chk.assumptions += [
-        "x86 only for arbitrary operand kinds (AArch64 has no operand validator; its perturbed-operand sweep is part of C02's refusal oracle); AArch64 is covered by the label/section/align/data API misuse scripts",
+        "arbitrary operand KINDS on x86 only (AArch64 has no operand validator); AArch64: every database form with kinds kept and values perturbed out of range (the sweep shared with C02) plus the label/section/align/data API misuse scripts",
         "label ids created by the harness for the call (L:1) are not counted as residue; Builder/Compiler use kValidateIntermediate",
     ]
     return chk.finish()
